@@ -1,45 +1,286 @@
 package vrt
 
-// Happens-before hooks (vhb). Implemented in hb_impl.go when race detection is enabled
-// for an execution; otherwise they cost one nil check.
+import (
+	"fmt"
+	"sort"
+	"unsafe"
+)
+
+// Happens-before race detection ("vhb"): vector clocks maintained by the shims.
+//
+// Edges: go (parent -> child), timer arming -> timer callback, mutex / rwmutex unlock -> lock,
+// atomics (a load / RMW acquires from the stores / RMWs before it; RMWs chain), sync.Map
+// operations (per map, totally ordered: coarser than reality, which can only hide races),
+// WaitGroup Done -> Wait, Pool Put -> Get, channel close/send -> receive; a receive from a
+// channel the shims never saw written (context cancellation by un-instrumented code)
+// acquires the join of all threads' clocks. The relation therefore over-approximates Go's:
+// two accesses it leaves unordered are unordered in Go's memory model as well.
+
+type vclock []uint32
+
+func (v vclock) get(i int) uint32 {
+	if i < len(v) {
+		return v[i]
+	}
+	return 0
+}
+
+func (v *vclock) set(i int, c uint32) {
+	for len(*v) <= i {
+		*v = append(*v, 0)
+	}
+	(*v)[i] = c
+}
+
+func (v *vclock) join(o vclock) {
+	for i, c := range o {
+		if c > v.get(i) {
+			v.set(i, c)
+		}
+	}
+}
+
+func (v vclock) clone() vclock { return append(vclock(nil), v...) }
+
+type access struct {
+	tid   int
+	clock uint32
+	site  string
+	write bool
+}
+
+type location struct {
+	lastWrite access
+	hasWrite  bool
+	reads     []access // at most one per thread
+}
+
+// RaceReport is one pair of conflicting accesses unordered by happens-before.
+type RaceReport struct {
+	First  string // "write at site by thread"
+	Second string
+	Key    string // canonical (site pair)
+}
+
+type hbState struct {
+	e       *exec
+	threads []vclock
+	syncs   map[uintptr]vclock
+	locs    map[uintptr]*location
+	races   map[string]RaceReport
+}
 
 var hb *hbState
 
+// EnableRaces switches the race detector on for the current execution (call from Setup).
+func EnableRaces() {
+	if ex == nil {
+		return
+	}
+	hb = &hbState{e: ex, syncs: map[uintptr]vclock{}, locs: map[uintptr]*location{}, races: map[string]RaceReport{}}
+	ex.hb = hb
+}
+
+// AccessPoints makes plain reads/writes of instrumented locations scheduling points in fine
+// mode, so that the value-level consequences of a race become reachable executions.
+func AccessPoints(on bool) {
+	if ex != nil {
+		ex.accessPoints = on
+	}
+}
+
+func (h *hbState) vc(tid int) *vclock {
+	for len(h.threads) <= tid {
+		h.threads = append(h.threads, nil)
+	}
+	if h.threads[tid] == nil {
+		h.threads[tid] = vclock{}
+		h.threads[tid].set(tid, 1)
+	}
+	return &h.threads[tid]
+}
+
+func (h *hbState) cur() (int, *vclock) {
+	t := h.e.cur
+	if h.e.hbOverride != nil {
+		return h.e.hbOverrideTid, h.e.hbOverride
+	}
+	return t.id, h.vc(t.id)
+}
+
+func (h *hbState) acquire(obj uintptr) {
+	_, v := h.cur()
+	if l, ok := h.syncs[obj]; ok {
+		v.join(l)
+	}
+}
+
+func (h *hbState) acquireUnknown() {
+	_, v := h.cur()
+	for i := range h.threads {
+		if h.threads[i] != nil {
+			v.join(h.threads[i])
+		}
+	}
+}
+
+func (h *hbState) release(obj uintptr, merge bool) {
+	tid, v := h.cur()
+	if merge {
+		l := h.syncs[obj]
+		l.join(*v)
+		h.syncs[obj] = l
+	} else {
+		h.syncs[obj] = v.clone()
+	}
+	v.set(tid, v.get(tid)+1)
+}
+
+func (h *hbState) spawn(parent, child int) {
+	pv := h.vc(parent)
+	if h.e.hbOverride != nil {
+		pv = h.e.hbOverride
+	}
+	cv := pv.clone()
+	cv.set(child, 1)
+	for len(h.threads) <= child {
+		h.threads = append(h.threads, nil)
+	}
+	h.threads[child] = cv
+	if h.e.hbOverride == nil {
+		pv.set(parent, pv.get(parent)+1)
+	}
+}
+
+func (h *hbState) snapshot() vclock {
+	tid, v := h.cur()
+	s := v.clone()
+	v.set(tid, v.get(tid)+1)
+	return s
+}
+
+func (h *hbState) report(a, b access) {
+	ka, kb := a.site, b.site
+	if kb < ka {
+		ka, kb = kb, ka
+	}
+	key := ka + " <-> " + kb
+	if _, ok := h.races[key]; ok {
+		return
+	}
+	name := func(x access) string {
+		k := "read"
+		if x.write {
+			k = "write"
+		}
+		tn := "?"
+		if x.tid < len(h.e.threads) {
+			tn = h.e.threads[x.tid].name
+		}
+		return fmt.Sprintf("%s at %s by %s", k, x.site, tn)
+	}
+	h.races[key] = RaceReport{First: name(a), Second: name(b), Key: key}
+}
+
+func (h *hbState) access(obj uintptr, write bool, site string) {
+	tid, v := h.cur()
+	l := h.locs[obj]
+	if l == nil {
+		l = &location{}
+		h.locs[obj] = l
+	}
+	me := access{tid: tid, clock: v.get(tid), site: site, write: write}
+	if l.hasWrite && l.lastWrite.tid != tid && l.lastWrite.clock > v.get(l.lastWrite.tid) {
+		h.report(l.lastWrite, me)
+	}
+	if write {
+		for _, r := range l.reads {
+			if r.tid != tid && r.clock > v.get(r.tid) {
+				h.report(r, me)
+			}
+		}
+		l.lastWrite, l.hasWrite = me, true
+		l.reads = l.reads[:0]
+	} else {
+		for i := range l.reads {
+			if l.reads[i].tid == tid {
+				l.reads[i] = me
+				return
+			}
+		}
+		l.reads = append(l.reads, me)
+	}
+}
+
+func (h *hbState) results() []RaceReport {
+	var out []RaceReport
+	for _, r := range h.races {
+		out = append(out, r)
+	}
+	sort.Slice(out, func(i, j int) bool { return out[i].Key < out[j].Key })
+	return out
+}
+
+// ---- hooks called by the shims and by rewritten code ----------------------------------------------
+
 func Acquire(obj uintptr) {
-	if hb != nil {
+	if hb != nil && ex != nil && !ex.aborting {
 		hb.acquire(obj)
 	}
 }
 func Release(obj uintptr) {
-	if hb != nil {
+	if hb != nil && ex != nil && !ex.aborting {
 		hb.release(obj, false)
 	}
 }
 func ReleaseMerge(obj uintptr) {
-	if hb != nil {
+	if hb != nil && ex != nil && !ex.aborting {
 		hb.release(obj, true)
 	}
 }
+
+// AcquireChan is the receive side of a channel: if the shims never saw a send/close on it the
+// writer is un-instrumented code, and the receiver conservatively acquires everything.
 func AcquireChan(obj uintptr) {
-	if hb != nil {
-		hb.acquire(obj)
+	if hb != nil && ex != nil && !ex.aborting {
+		if _, ok := hb.syncs[obj]; ok {
+			hb.acquire(obj)
+		} else {
+			hb.acquireUnknown()
+		}
 	}
 }
 
-// R and W are inserted by the rewriter before reads / writes of shared locations.
-func R(obj uintptr) {
-	if hb != nil {
-		hb.access(obj, false)
+// R / W are inserted by the rewriter before reads / writes of struct fields and map objects.
+func R(obj uintptr, site string) {
+	e := ex
+	if e == nil || e.aborting {
+		return
 	}
-}
-func W(obj uintptr) {
+	if e.accessPoints && !e.cfg.Coarse {
+		Point(KAccess, obj)
+	}
 	if hb != nil {
-		hb.access(obj, true)
+		hb.access(obj, false, site)
 	}
 }
 
-type hbState struct{}
+func W(obj uintptr, site string) {
+	e := ex
+	if e == nil || e.aborting {
+		return
+	}
+	if e.accessPoints && !e.cfg.Coarse {
+		Point(KAccess, obj)
+	}
+	if hb != nil {
+		hb.access(obj, true, site)
+	}
+}
 
-func (h *hbState) acquire(obj uintptr)             {}
-func (h *hbState) release(obj uintptr, merge bool) {}
-func (h *hbState) access(obj uintptr, write bool)  {}
+// Addr / MapAddr compute location identities.
+func Addr[T any](p *T) uintptr { return uintptr(unsafe.Pointer(p)) }
+
+func MapAddr[M ~map[K]V, K comparable, V any](m M) uintptr {
+	return uintptr(*(*unsafe.Pointer)(unsafe.Pointer(&m)))
+}
